@@ -98,7 +98,32 @@ def seeded(args):
     return 0 if missed == 0 else 1
 
 
+def refactors(args):
+    """Behaviour-preserving refactorings of the library (written by independent sub-agents, /verif/refactors) must leave every
+    check silent: the false-alarm side of the self-test."""
+    root = core.VERIF_DIR
+    rdir = os.path.join(root, "refactors")
+    runs = str(args.runs or 1500)
+    only = os.environ.get("VERIF_SELFTEST_ONLY")
+    alarms = n = 0
+    for name in sorted(f for f in os.listdir(rdir) if f.endswith(".diff")):
+        for pid in core.PROPS:
+            if only and only not in name and only != pid:
+                continue
+            p = subprocess.run([os.path.join(root, "tools", "mutant.sh"), os.path.join(rdir, name), pid, "--runs", runs], capture_output=True, text=True)
+            n += 1
+            if p.returncode != 0:
+                alarms += 1
+                lines = [l for l in p.stdout.splitlines() if l.startswith("violation class") or "HARNESS" in l or "PATCH" in l]
+                print("ALARM %s %s rc=%d %s" % (name, pid, p.returncode, (lines or [""])[0][:250]), flush=True)
+        print("refactors/%s done" % name, flush=True)
+    print("selftest-refactors: %d (patch, check) pairs, %d alarms" % (n, alarms))
+    return 0 if alarms == 0 else 1
+
+
 def main(target, args, rest):
+    if target == "selftest-refactors":
+        return refactors(args)
     if target == "selftest-determinism":
         return determinism(args)
     if target == "selftest-digests":
